@@ -134,7 +134,7 @@ Retrieve(E, c) ==
         resid == ResWalk(used, ment, {}, c.rcap)
     IN [ids |-> order, k_used |-> kused, residual |-> resid, comb |-> comb, ckey |-> ckey, chosen |-> chosen,
         nclusters |-> Cardinality(ckeys), cbetter |-> {x \in ckeys \X ckeys : cgt[x]},
-        guard |-> (2 \in RangeOf(c.tiers) /\ cguard) \/ rguard]
+        gcluster |-> 2 \in RangeOf(c.tiers) /\ cguard, grank |-> rguard]
 
 Init == /\ n \in Ns
         /\ eps \in (IF SampleEps = 0 THEN [1..n -> EpRec] ELSE RandomSubset(SampleEps, [1..n -> EpRec]))
@@ -168,6 +168,7 @@ SliceCapOnUse == /\ out.k_used <= Len(R)
                  /\ out.k_used = Len(R) \/ out.k_used = cf.scap
 
 EmitCase == PrintT(<<"T", ToJson([eps |-> eps, cf |-> cf, ids |-> out.ids, k_used |-> out.k_used,
-                                  residual |-> SortedInts(out.residual), guard |-> out.guard,
+                                  residual |-> SortedInts(out.residual), guard |-> out.gcluster \/ out.grank,
+                                  gcluster |-> out.gcluster, grank |-> out.grank,
                                   chosen |-> SortedInts(out.chosen)])>>)
 =============================================================================
